@@ -114,6 +114,35 @@ class Api:
     def post(self, action, params):
         return self.post_raw(action, json.dumps(params))
 
+    def post_with_world(self, action, params, world, **runargs):
+        """For handlers that await the end of an execution (StartSyncExecution): issue the request,
+        let the world run, then collect the response."""
+        assert self.kind == "aio"
+        headers = {"Content-Type": "application/x-amz-json-1.0", "x-amz-target": "AWSStepFunctions." + action}
+
+        async def go():
+            task = asyncio.ensure_future(self.client.post("/", data=json.dumps(params), headers=headers))
+            for _ in range(20):
+                await asyncio.sleep(0)
+                if task.done():
+                    break
+            if not task.done():
+                world.run(**runargs)
+                for _ in range(20):
+                    await asyncio.sleep(0)
+                    if task.done():
+                        break
+            if not task.done():
+                task.cancel()
+                return None, "pending"
+            r = task.result()
+            return r.status_code, (await r.get_data()).decode("utf8", "replace")
+        status, text = self.loop.run_until_complete(go())
+        try:
+            return status, json.loads(text) if text else ""
+        except ValueError:
+            return status, text
+
     def close(self):
         if self.loop:
             self.loop.close()
